@@ -219,14 +219,27 @@ class MultiKeyLookup:
         return self._idx_defs[name]
 
     def add_index(self, index_name: str, index_definition: IndexDefinition):
-        """Add index to table."""
-        self._idx_defs[index_name] = index_definition
+        """Add index to table.
+
+        Objects that are already in the table are added to the new index like add_object does it (an object whose
+        key function raises TypeError / AttributeError is not part of the index).
+        If the index rejects one of the objects (e.g. KeyError of a unique index), the table is left unchanged.
+        """
         index_definition.set_lock(self._lock)
-        # add existing objects to new lookup
-        for obj in self._objects:
-            keys = index_definition.mk_keys(obj)
-            for k in keys:
-                self._object_ids[id(obj)].append(_ObjRef(index_definition, k))
+        with self._lock:
+            new_refs = {}
+            try:
+                for obj in self._objects:
+                    try:
+                        new_refs[id(obj)] = [_ObjRef(index_definition, k) for k in index_definition.mk_keys(obj)]
+                    except (TypeError, AttributeError):  # noqa: PERF203
+                        pass
+            except Exception:
+                index_definition.clear()
+                raise
+            self._idx_defs[index_name] = index_definition
+            for obj_id, obj_refs in new_refs.items():
+                self._object_ids[obj_id].extend(obj_refs)
 
     def add_object(self, obj: Any):
         """Add object to table.
